@@ -589,8 +589,35 @@ impl Wrap {
         let mut b = Runner::<T>::fresh(&cfg, Sig::noise(s1)).unwrap();
         let (mut tot_in, mut tot_out) = (0u64, 0u64);
         for (i, op) in ops.iter().enumerate() {
-            let sa = a.step(op);
-            let sb = if boxed { b.step(op) } else { step_core(&mut b, op) };
+            // a panic on one side only is a divergence between the wrapper and the core; on both sides it is
+            // C03's business
+            let ra = crate::mon::guarded(|| a.step(op));
+            let rb = crate::mon::guarded(|| if boxed { b.step(op) } else { step_core(&mut b, op) });
+            let (sa, sb) = match (ra, rb) {
+                (Ok(x), Ok(y)) => (x, y),
+                (Err(p), Ok(_)) => {
+                    cr.viols.push(Viol {
+                        prop: "C16".into(),
+                        clause: if boxed { "boxed_panics_direct_completes".into() } else { "wrapper_panics_core_completes".into() },
+                        detail: format!("op {} ({}): panicked: {}; the same call through {} completed", i, op.json().dump(), p, if boxed { "the concrete type" } else { "process_into_buffer on zero-padded input" }),
+                        step: i,
+                    });
+                    break;
+                }
+                (Ok(_), Err(p)) => {
+                    cr.viols.push(Viol {
+                        prop: "C16".into(),
+                        clause: if boxed { "direct_panics_boxed_completes".into() } else { "core_panics_wrapper_completes".into() },
+                        detail: format!("op {} ({}): the wrapper call completed, the same call through {} panicked: {}", i, op.json().dump(), if boxed { "the concrete type" } else { "process_into_buffer on zero-padded input" }, p),
+                        step: i,
+                    });
+                    break;
+                }
+                (Err(p), Err(_)) => {
+                    cr.inconclusive = Some(format!("panic on both sides (C03): {}", p));
+                    break;
+                }
+            };
             st.add("compared_steps", 1.0);
             match op {
                 Op::Proc { path: Path::Vecs, .. } => st.add("process_calls_compared", 1.0),
@@ -632,8 +659,17 @@ impl Wrap {
         for f in a.findings.iter().filter(|f| f.prop == "C16") {
             cr.viols.push(Viol { prop: "C16".into(), clause: f.clause.into(), detail: f.detail.clone(), step: f.step });
         }
-        if a.findings.iter().chain(b.findings.iter()).any(|f| f.prop == "C03") {
-            cr.inconclusive = Some("C03 event in this history".into());
+        // a panic on both sides is C03's business (inconclusive here); a panic of the wrapper run alone,
+        // while the same calls made through process_into_buffer complete, is a C16 violation
+        let pa = a.findings.iter().find(|f| f.prop == "C03");
+        let pb = b.findings.iter().find(|f| f.prop == "C03");
+        match (pa, pb) {
+            (Some(f), None) => {
+                cr.viols.retain(|v| v.clause != "wrapper_differs_from_core" && v.clause != "boxed_differs");
+                cr.viols.push(Viol { prop: "C16".into(), clause: if boxed { "boxed_panics_direct_completes".into() } else { "wrapper_panics_core_completes".into() }, detail: format!("op {}: {} ({}); the same history through {} completes", f.step, f.clause, f.detail, if boxed { "the concrete type" } else { "process_into_buffer on zero-padded input" }), step: f.step });
+            }
+            (None, None) => {}
+            _ => cr.inconclusive = Some("C03 event in this history".into()),
         }
         st.add(&format!("cases.{}", cfg.kind.name()), 1.0);
         st.add(if boxed { "boxed_cases" } else { "wrapper_cases" }, 1.0);
